@@ -130,7 +130,7 @@ def run(ctx):
     ctx.rule = RULE
     ctx.assumptions = ASSUMPTIONS
     binary = build.build("bloch", "asan")
-    n = ctx.n(300, 5000)
+    n = ctx.n(600, 5000)
     cases = []
     for i in range(n):
         prof = ["qasm", "qasm", "handles", "reset", "gates"][i % 5]
